@@ -144,6 +144,35 @@ def gen_cues(rng, unit, short_ok):
     return cues
 
 
+def related_cues(rng, first, unit):
+    """cues of a further language built around the first language's times: shared starts / ends, a title cue that starts
+    before the first language and ends exactly where its first cue begins, cues in the gaps"""
+    pts = sorted({t for c in first for t in c})
+    out = []
+    t0 = pts[0]
+    if t0 >= 2 * unit and rng.random() < 0.6:
+        a = rng.randrange(0, t0 - unit)
+        out.append((a, t0 if rng.random() < 0.7 else rng.randrange(a + unit, t0 + 1)))
+    for (s, e) in first:
+        r = rng.random()
+        if r < 0.4:
+            out.append((s, e))
+        elif r < 0.6 and e - s >= 2 * unit:
+            m = rng.randrange(s + unit, e - unit + 1)
+            out.append((s, m))
+            if rng.random() < 0.5:
+                out.append((m, e))
+        elif r < 0.75:
+            out.append((s, s + unit))
+    res = []
+    for (s, e) in out:
+        if res and s < res[-1][1]:
+            continue
+        if e - s >= unit and e <= HI:
+            res.append((s, e))
+    return res or [(first[0][0], first[0][0] + unit)]
+
+
 def build(langs):
     d = {}
     for li, (cues, texts) in enumerate(langs):
@@ -188,14 +217,20 @@ def run(ctx):
             jobs.append([a, b])
     for _ in range(ctx.n(700, 10000)):
         jobs.append([rng.randrange(5) for _ in range(rng.randint(3, 6))])
+    n_multi = ctx.n(160, 3000)       # chains that stay within DFXP / SAMI, always with 2-3 interleaved languages
+    for _ in range(n_multi):
+        jobs.append([rng.choice([2, 3]) for _ in range(rng.randint(1, 5))])
+    multi_from = len(jobs) - n_multi
     reqs_t, reqs_e, work = [], [], []
-    for chain in jobs:
+    for jn, chain in enumerate(jobs):
         unit = 40000 if 4 in chain else 1000
-        multi = all(f in (2, 3) for f in chain) and rng.random() < 0.5
+        multi = all(f in (2, 3) for f in chain) and (rng.random() < 0.5 or jn >= multi_from)
         nl = rng.choice([2, 3]) if multi else 1
         langs = []
-        for _ in range(nl):
+        for k in range(nl):
             cues = gen_cues(rng, unit, 3 not in chain)
+            if k and rng.random() < 0.6:
+                cues = related_cues(rng, langs[0][0], unit)
             langs.append((cues, [gen_text(rng, 4 in chain, dist) for _ in cues]))
             if any(e - s0 < unit for (s0, e) in cues):
                 dist["sets_with_a_cue_shorter_than_the_unit"] = dist.get("sets_with_a_cue_shorter_than_the_unit", 0) + 1
@@ -288,7 +323,9 @@ def run(ctx):
                     "domain; a chain of model hops is the closed form and satisfies the oracle",
                     "string level, MicroDVD: reader model o writer model (whole documents incl. text lines) = frames "
                     "floored, text unchanged (C08_mdvd_roundtrip_string)"],
-        "correspondence_only": ["text survives every hop and the second pass (whitespace-normalised lines, adversarial "
+        "correspondence_only": ["several languages inside one DFXP / SAMI document do not disturb each other (dedicated "
+                                "stream with interleaved languages; the set-level theorem converts each language on its own)",
+                                "text survives every hop and the second pass (whitespace-normalised lines, adversarial "
                                 "texts; the projection on text is the identity up to whitespace; only '|' is excluded, "
                                 "for MicroDVD hops)",
                                 "document level of every real writer / reader pair (the model hop is at token / cue-list "
